@@ -105,6 +105,8 @@ def check_engine(rep, fb, ex, eq, callgraph):
         anc = sorted(t for t in lt if t.startswith('source-ancestry'))
         rep.check(len(anc) == 2, 'R01.13', eng + '|ancestor pre-emption', locstr(lsite), 'a transition whose source is an ancestor or descendant of an already selected transition\'s source is %s (terms: %s); a targetless transition has an empty exit set, so exit-set overlap alone lets the ancestor\'s transition fire as well' % (
             'recorded as conflicting' if len(anc) == 2 else 'NOT recorded as conflicting', sorted(lt)))
+    # R01.15 extent of the exit interval
+    exit_extent(rep, fb, f, eng)
     # R01.14 the set of still-compatible transitions only narrows
     if f.rec.endswith('LargeMicroStep'):
         narrowing_polarity(rep, fb, f, eng)
@@ -131,6 +133,59 @@ def check_engine(rep, fb, ex, eq, callgraph):
     pred = callgraph.reach([f])
     direct_dm = [fb.funcs[m].q for m in pred if fb.funcs[m].file.startswith('src/uscxml/plugins/datamodel/') and pred[m] is not None and fb.funcs[pred[m]].file.startswith('src/uscxml/interpreter/' + eng)]
     rep.check(not direct_dm, 'R01.10', eng + '|datamodel-independent', f.where(), 'the engine reaches data models only through the MicroStepCallbacks interface (direct calls: %s)' % direct_dm)
+
+
+def exit_extent(rep, fb, f, eng):
+    gx = fb.fn(f.rec + '::getExitSet')
+    defs = path.local_defs(gx)
+    ends = []
+    for n in gx.walk():
+        if n['k'] in ('BinaryOperator', 'CXXOperatorCallExpr') and n.get('op') == '=':
+            l = strip(n['c'][0] if n['k'] == 'BinaryOperator' else n['c'][1])
+            if l is not None and l['k'] == 'MemberExpr' and l.get('ref', {}).get('name') == 'second':
+                ends.append(n)
+    rep.minimum('R01.15', len(ends), 1, 'assignments to the upper end of the exit interval in %s::getExitSet' % eng)
+
+    def slice_feats(expr, depth=0, seen=None):
+        seen = seen if seen is not None else set()
+        feats = set()
+        for x in sub(expr):
+            if x['k'] == 'MemberExpr' and x.get('ref', {}).get('name') in ('ancestors', 'parent'):
+                feats.add(x['ref']['name'])
+            if x.get('callee', {}).get('q', '').endswith(('getParentNode', 'getParentState', 'isDescendant')):
+                feats.add('parent')
+            if x.get('callee', {}).get('q', '').endswith('getNextElementSibling'):
+                feats.add('next-sibling')
+            if x['k'] == 'MemberExpr' and x.get('ref', {}).get('name') == '_states' and any(y.get('callee', {}).get('q', '').endswith('::size') for y in sub(expr)):
+                feats.add('document-end')
+            if x['k'] == 'DeclRefExpr' and 'lid' in x.get('ref', {}) and x['ref']['lid'] not in seen and depth < 4:
+                lid = x['ref']['lid']
+                seen.add(lid)
+                for d in defs.get(lid, []):
+                    feats |= slice_feats(d, depth + 1, seen)
+                # conditions of loops / ifs that contain a write of this local
+                for w in gx.walk():
+                    if w['k'] in ('UnaryOperator', 'BinaryOperator', 'CompoundAssignOperator') and w.get('op') in ('++', '=', '+=') and any(
+                            y['k'] == 'DeclRefExpr' and y.get('ref', {}).get('lid') == lid for y in sub(w['c'][0] if w.get('c') else w)):
+                        for a in gx.ancestors(w):
+                            if a['k'] in ('WhileStmt', 'ForStmt', 'IfStmt', 'DoStmt'):
+                                kids = [c for c in a['c'] if c is not None]
+                                cond = kids[0] if a['k'] in ('WhileStmt', 'IfStmt') else (a['c'][2] if a['k'] == 'ForStmt' and len(a['c']) > 2 else None)
+                                if cond is not None:
+                                    for y in sub(cond):
+                                        if y['k'] == 'MemberExpr' and y.get('ref', {}).get('name') in ('ancestors', 'parent'):
+                                            feats.add(y['ref']['name'])
+        return feats
+    for n in ends:
+        rhs = n['c'][1] if n['k'] == 'BinaryOperator' else n['c'][2]
+        feats = slice_feats(rhs)
+        # control dependence: an if around the assignment that tests a sibling pointer
+        for a in gx.ancestors(n):
+            if a['k'] == 'IfStmt':
+                feats |= {'under-test-of:' + y['ref']['name'] for y in sub([c for c in a['c'] if c is not None][0]) if y['k'] == 'DeclRefExpr' and 'name' in y.get('ref', {})}
+        ok = bool(feats & {'ancestors', 'parent'})
+        rep.check(ok, 'R01.15', '%s|getExitSet|upper end#%d' % (eng, ends.index(n)), locstr(n), 'the upper end `%s` is derived from %s: %s' % (
+            fb.text(n)[:50], sorted(feats) or 'nothing structural', 'the domain\'s subtree' if ok else 'the position of the next sibling / the end of the document only -- for a domain that is the last child of its parent the interval swallows the following regions'))
 
 
 def narrowing_polarity(rep, fb, f, eng):
@@ -183,6 +238,7 @@ def run(rep, tier):
     rep.rule('R01.6', 'bitset typestate: no dynamic_bitset is indexed after clear() shrank it to zero bits')
     rep.rule('R01.8', 'interval closedness agreement: overlap and membership tests on exit intervals use non-strict comparisons, like the place that applies the interval')
     rep.rule('R01.9', 'state kind codes are an enumeration: they are compared, never bit-masked')
+    rep.rule('R01.15', 'extent of the exit interval: its upper end is the last descendant of the transition domain, i.e. it is computed from the ancestor relation (membership scan or a walk up the parents), never from the position of the domain\'s next sibling alone with the end of the document as fall-back')
     rep.rule('R01.14', 'selection bookkeeping (large engine): when a further transition is selected, a bit of _compatible survives only if the new transition lists that index as compatible (intersection), and _conflicting only gains bits (union); the value stored is decided by the membership test with the right polarity')
     rep.rule('R01.13', 'optimal transition set: a transition selected in a descendant pre-empts the transitions of its ancestors even when it exits nothing (targetless); the selection does not rely on the position of states in the post-fix ordered view')
     rep.rule('R01.12', 'history records are independent: either every history has its own record or the completions of distinct histories are disjoint (a deep history must not rewrite the states remembered for a history nested below it)')
